@@ -159,6 +159,8 @@ static struct udict *udict_inline_alloc(struct udict_mgr *mgr, size_t size)
     struct udict_inline_mgr *inline_mgr = udict_inline_mgr_from_udict_mgr(mgr);
     struct udict_inline *inl = upool_alloc(&inline_mgr->udict_pool,
                                            struct udict_inline *);
+    if (unlikely(inl == NULL))
+        return NULL;
     struct udict *udict = udict_inline_to_udict(inl);
 
     if (size < inline_mgr->min_size)
